@@ -13,7 +13,8 @@ from .. import strategies as S
 from .. import kd
 
 ID = "C07"
-RULE = ("case = (algebra config d<=7 of every signature kind incl. custom bases for d<=4, kind in {inv, div, number/x, "
+RULE = ("a fixed list of 25 structural operands (blades multiplying to the pseudoscalar / commuting bivectors in d=6,7, "
+        "non-simple homogeneous elements in d=4,5) is evaluated every run; generated: case = (algebra config d<=7 of every signature kind incl. custom bases for d<=4, kind in {inv, div, number/x, "
         "negative power}, operand built as: random sparse Fractions | product of <=3 invertible vectors | dominant scalar + "
         "small part | singular on purpose (null vector, 1+-e with e^2=+1, zero, nilpotent blade), stored canonical / permuted "
         "/ zero-padded; blade-count caps by dimension (d<=3 any, d=4: 8 quick / 12 thorough, d=5: 5 / 8, d=6: 4, d=7: 3); "
@@ -50,14 +51,23 @@ def _vec(draw, d, nonnull_only=None):
 @st.composite
 def _operand_spec(draw, d, cap, sig):
     n = 2 ** d
-    cls = draw(st.sampled_from(["random", "random", "random", "versor", "dominant", "singular", "singular"]))
+    cls = draw(st.sampled_from(["random", "random", "puregrade", "puregrade", "versor", "dominant", "singular", "singular"]))
     if d == 0:
         cls = draw(st.sampled_from(["random", "singular"]))
-    if d >= 6 and cls in ("random", "versor"):
+    if d >= 6 and cls in ("random", "versor", "puregrade"):
         # the generated d>=6 inverse is an expanded degree-2^ceil(d/2) polynomial with float constants: operands whose
         # norm-like invariant is small relative to their coefficients lose digits by cancellation (measured 1e-6 for
         # 1+e1+e2/3 in d=7), which is rounding, not a defect -> only well-conditioned operands are generated here
         cls = "dominant"
+    if cls == "puregrade":
+        # homogeneous elements (bivectors, trivectors ...) incl. non-simple ones such as e12+e34, optionally plus a scalar
+        g = draw(st.integers(1, max(1, d - 1)))
+        blades = [k for k in range(n) if bin(k).count("1") == g]
+        idx = draw(st.lists(st.integers(0, len(blades) - 1), unique=True, min_size=1, max_size=max(1, min(cap, len(blades)))))
+        el = {str(blades[i]): draw(S.fracs(nonzero=True)) for i in idx}
+        if draw(st.integers(0, 3)) == 0 and len(el) < cap:
+            el["0"] = draw(S.fracs(nonzero=True))
+        return {"cls": "random", "sub": "puregrade", "elem": el}
     if cls == "random":
         ks = draw(st.lists(st.integers(0, n - 1), unique=True, min_size=1, max_size=max(1, cap)))
         return {"cls": cls, "elem": {str(k): draw(S.fracs(nonzero=True)) for k in ks}}
@@ -101,6 +111,31 @@ def _cases(draw, tier):
 
 def cases(tier):
     return _cases(tier)
+
+
+def enumerate_cases(tier):
+    """Hand-picked structural operands that random sparse draws rarely hit: elements whose blades multiply to the
+    pseudoscalar / commuting bivectors (generic spectrum) in the dimensions served by the iterative scheme, and non-simple
+    homogeneous elements for the closed forms.  Values are not units so that scaling errors show."""
+    def mk(sig, elem, kind="inv", layout="canonical"):
+        c = {"cfg": {"sig": sig, "start": None, "basis": None}, "kind": kind, "x": {"cls": "random", "elem": elem}, "mode": "frac",
+             "layout": layout, "pad": [], "rot": 1, "structural": True}
+        if kind == "rdiv":
+            c["number"] = "3"
+        return c
+    yield mk([1] * 7, {"1": "1", "6": "2", "24": "1/2", "96": "3"})
+    yield mk([1, 1, 1, -1, -1, 1, 1], {"3": "1", "12": "2", "48": "1/2", "64": "3"}, layout="permuted")
+    yield mk([1] * 6, {"3": "2", "12": "3", "48": "1/2"})
+    yield mk([1, -1, 1, -1, 1, 1], {"0": "2", "3": "1", "12": "3", "48": "1/2"}, kind="rdiv")
+    yield mk([1] * 6, {"7": "2", "56": "3"})
+    for sig in ([1, 1, 1, 1], [0, 1, 1, 1], [1, 1, -1, -1], [1, 1, 1, 1, 1], [0, 1, 1, 1, -1]):
+        d = len(sig)
+        yield mk(sig, {"3": "2", "12": "3"})
+        yield mk(sig, {"0": "1", "3": "2", "12": "3"}, layout="permuted")
+        yield mk(sig, {"5": "2", "10": "3", "12": "1/2"})
+        if d == 5:
+            yield mk(sig, {"7": "2", "24": "3"})
+            yield mk(sig, {"3": "1", "12": "2", "17": "3", "0": "1/2"})
 
 
 def _build_elem(spec, ref, Rr):
